@@ -37,6 +37,14 @@ def main():
             print(sid, "cannot create worktree", out)
             continue
         res = dict(id=sid, property=meta["property"], time=time.strftime("%Y-%m-%d %H:%M:%S"))
+        if not confirm and os.path.exists(os.path.join(d, "result.json")):
+            try:  # keep the outcome of an earlier --confirm-demo run
+                old = json.load(open(os.path.join(d, "result.json")))
+                for k in ("demo_without_patch", "demo_with_patch"):
+                    if k in old:
+                        res[k] = old[k]
+            except Exception:
+                pass
         try:
             demo_dst = None
             if confirm and meta.get("demo_path"):
